@@ -67,12 +67,15 @@ func genTagSet(rt *rapid.T) map[string]string {
 
 func genC18Op(rt *rapid.T, c *C18Case, identity bool) C18Op {
 	kinds := []string{"inc", "inc", "add", "gauge", "obs", "obs", "timer", "search", "dbop", "dbop", "readall", "pctl"}
+	if identity {
+		kinds = append(kinds, "monoff", "monon") // the monitor's switch is a plain flag: single task only
+	}
 	op := C18Op{Kind: rapid.SampledFrom(kinds).Draw(rt, "kind")}
 	switch op.Kind {
 	case "inc", "add", "gauge", "obs", "timer", "pctl":
 		op.Name = rapid.IntRange(0, len(c.Names)-1).Draw(rt, "name")
 		op.Tags = rapid.IntRange(0, len(c.TagSets)-1).Draw(rt, "tags")
-		op.V = int64(rapid.IntRange(0, 12).Draw(rt, "v"))
+		op.V = int64(rapid.SampledFrom([]int{0, 1, 2, 3, 5, 7, 10, 12, 100, 10000, 10001, 50000}).Draw(rt, "v"))
 	case "search":
 		op.Hit = rapid.Bool().Draw(rt, "hit")
 		op.V = int64(rapid.IntRange(0, 30).Draw(rt, "qlen"))
@@ -219,15 +222,25 @@ func (s *c18Sys) apply(op C18Op, r *c18Rec) {
 			}
 			last = v
 		}
+	case "monoff":
+		s.mon.Enable(false)
+	case "monon":
+		s.mon.Enable(true)
 	case "search":
+		on := s.mon.IsEnabled()
 		s.mon.RecordSearchOperation(time.Duration(op.V)*time.Millisecond, int(op.V), op.Hit, int(op.V))
-		r.search++
-		if op.Hit {
-			r.hits++
+		if on { // a disabled monitor records nothing: only what was recorded while it was on is owed
+			r.search++
+			if op.Hit {
+				r.hits++
+			}
 		}
 	case "dbop":
+		on := s.mon.IsEnabled()
 		s.mon.RecordDatabaseOperation(c18DBOps[op.Op%len(c18DBOps)], time.Millisecond, op.Ok)
-		r.dbops[fmt.Sprintf("%s|%v", c18DBOps[op.Op%len(c18DBOps)], op.Ok)]++
+		if on {
+			r.dbops[fmt.Sprintf("%s|%v", c18DBOps[op.Op%len(c18DBOps)], op.Ok)]++
+		}
 	case "readall":
 		_ = s.col.GetAllMetrics()
 		_ = s.mon.GetPerformanceReport()
